@@ -29,7 +29,7 @@ func init() {
 		NeedRepro:  false,
 		WorkerJobs: 40,
 		DeadlineQ:  150 * time.Second,
-		DeadlineT:  25 * time.Minute,
+		DeadlineT:  45 * time.Minute,
 	})
 }
 
